@@ -328,7 +328,7 @@ def check_print_clauses(ctx, rng, conn, entries, case):
 
 PERIOD_CHOICES = [(datetime.date(2020, 1, 1), None, False), (None, datetime.date(2020, 7, 1), False), (datetime.date(2019, 7, 1), datetime.date(2020, 7, 1), True),
                   (None, True, False), (None, None, True), (datetime.date(2019, 3, 15), True, False), (datetime.date(2020, 4, 1), datetime.date(2021, 4, 1), False),
-                  (datetime.date(2020, 1, 1), None, True)]
+                  (datetime.date(2020, 1, 1), None, True), (None, None, False), (None, None, False)]
 
 
 def check_period_reference(ctx, rng, conn, entries, options, case):
@@ -344,7 +344,7 @@ def check_period_reference(ctx, rng, conn, entries, options, case):
     expr = ftext[len('FROM '):] if ftext else None
     clauses = period.clause_text(open_, close, clear, expr)
     view = period.reference_view(entries, options, open_, close, clear)
-    text = f'PRINT FROM {clauses}'
+    text = f'PRINT FROM {clauses}' if clauses else 'PRINT'
     case = dict(case, statement=text)
     out = io.StringIO()
     try:
@@ -372,8 +372,9 @@ def check_period_reference(ctx, rng, conn, entries, options, case):
     pclauses = period.clause_text(open_, close, clear)
     rows = period.posting_rows(view)
     try:
-        bal = conn.execute(f'BALANCES FROM {pclauses}').fetchall()
-        jou = conn.execute(f'JOURNAL FROM {pclauses}').fetchall()
+        # (no clause at all: the plain statements over the whole ledger)
+        bal = conn.execute(f'BALANCES FROM {pclauses}' if pclauses else 'BALANCES').fetchall()
+        jou = conn.execute(f'JOURNAL FROM {pclauses}' if pclauses else 'JOURNAL').fetchall()
     except Exception as exc:  # noqa: BLE001
         ctx.violation(f'c14.period_statement_failed.{monitors.classify_exception(exc)}', f'BALANCES/JOURNAL FROM {pclauses}: {exc!r}', case)
         return
